@@ -259,7 +259,10 @@ class Model(object):
         return out
 
     def mro(self, cq):
-        out = []
+        cache = self.__dict__.setdefault('_mro_cache', {})
+        if cq in cache:
+            return cache[cq]
+        out = cache[cq] = []
 
         def walk(q):
             if q in out or q not in self.classes:
@@ -274,6 +277,13 @@ class Model(object):
         return [q for q in self.classes if cq in self.mro(q)[1:]]
 
     def method(self, cq, name):
+        cache = self.__dict__.setdefault('_method_cache', {})
+        key = (cq, name)
+        if key not in cache:
+            cache[key] = self._method(cq, name)
+        return cache[key]
+
+    def _method(self, cq, name):
         for k in self.mro(cq):
             fi = self.funcs.get(k + '.' + name)
             if fi is not None:
@@ -324,12 +334,18 @@ class Model(object):
         return None
 
     def func_of_node(self, fnode):
-        for fi in self.funcs.values():
-            if fi.node is fnode:
-                return fi
-        return None
+        idx = self.__dict__.get('_by_node')
+        if idx is None:
+            idx = self._by_node = {id(fi.node): fi for fi in self.funcs.values()}
+        return idx.get(id(fnode))
 
     def digest(self):
+        if self.__dict__.get('_digest'):
+            return self._digest
+        self._digest = self._compute_digest()
+        return self._digest
+
+    def _compute_digest(self):
         h = hashlib.sha256()
         for rel in sorted(self.files):
             h.update(rel.encode())
